@@ -66,6 +66,7 @@ type EventStream struct {
 // If "local" is full, it means that the consumer side has not processed the events at an appropriate pace.
 // Such a consumer is removed and the related channels are closed.
 func (e *EventStreaming) PublishEvent(event *si.EventRecord) {
+	verifGate("stream.publish", event.GetObjectID())
 	e.Lock()
 	defer e.Unlock()
 
@@ -95,6 +96,7 @@ func (e *EventStreaming) CreateEventStream(name string, count uint64) *EventStre
 	local := make(chan *si.EventRecord, defaultChannelBufSize)
 	stop := make(chan struct{})
 	e.createEventStreamInternal(stream, local, consumer, stop, name)
+	verifGate("stream.registered", name)
 	history := e.buffer.GetRecentEvents(count)
 
 	go func(consumer chan<- *si.EventRecord, local <-chan *si.EventRecord, stop <-chan struct{}) {
